@@ -18,7 +18,9 @@ import (
 	"reflect"
 	"sort"
 	"strings"
+	"sync/atomic"
 	"testing"
+	"time"
 
 	"github.com/antlr4-go/antlr/v4"
 	parser "github.com/openfga/language/pkg/go/gen"
@@ -313,7 +315,36 @@ func (e *errCounter) SyntaxError(_ antlr.Recognizer, _ interface{}, line, col in
 }
 
 // c19Parse feeds a token-type sentence to the generated Go parser.
+// c19Parse runs the generated Go parser on a token sentence under a watchdog: a parse of a few dozen tokens that
+// has not returned after 30 s does not terminate (seeded: a hand-edited token set makes the parser spin). Once that
+// happened every later call reports it at once, so that shrinking does not pile up spinning goroutines.
+var c19Hung atomic.Bool
+
 func c19Parse(tokens []string) (rules []string, nErr int, first string, panicked string) {
+	if c19Hung.Load() {
+		return nil, 0, "", "the parser did not return within 30 s on an earlier sentence of this run"
+	}
+	type res struct {
+		rules []string
+		nErr  int
+		first string
+		pan   string
+	}
+	ch := make(chan res, 1)
+	go func() {
+		r, n, f, p := c19ParseUnguarded(tokens)
+		ch <- res{r, n, f, p}
+	}()
+	select {
+	case r := <-ch:
+		return r.rules, r.nErr, r.first, r.pan
+	case <-time.After(30 * time.Second):
+		c19Hung.Store(true)
+		return nil, 0, "", "no result after 30 s (the generated parser does not terminate on this sentence)"
+	}
+}
+
+func c19ParseUnguarded(tokens []string) (rules []string, nErr int, first string, panicked string) {
 	defer func() {
 		if r := recover(); r != nil {
 			panicked = fmt.Sprint(r)
@@ -368,7 +399,7 @@ func c19SentenceCheck(in c19Input) string {
 	derivable := g.Derives("main", toks)
 	rules, nErr, first, pan := c19Parse(in.Tokens)
 	if pan != "" {
-		return "the generated Go parser panicked on a token sentence: " + pan
+		return "the generated Go parser panicked or hung on a token sentence (" + strings.Join(in.Tokens, " ") + "): " + pan
 	}
 	if !in.Mutated {
 		if !derivable {
